@@ -6,11 +6,11 @@ from ..framework import Model, Stage
 
 PID = "C18"
 RULE = ("parse cases = texts rendered by spec/TextFormat.tla (every partial ranking over <=3/4 elements x 108 variants: "
-        "brace/bracket, surrounding whitespace, name prefix, separators x 4 naming kinds: ints, multi-digit ints, "
+        "brace/bracket, surrounding whitespace, name prefix, separators x 5 naming kinds: ints, multi-digit ints, ints from 0, "
         "letters, words); total cases = every string over the 9-character alphabet up to a length (batches of 1000); "
         "file cases = every dataset of the grid written to a fresh file and read back; non-trivial = rankings with >= 2 "
         "elements / every batch / datasets with >= 2 rankings or an empty ranking")
-EXHAUSTIVE = {"quick": "26 rankings x 108 variants x 4 namings; all 66430 strings of length <= 5; all 700 datasets as files",
+EXHAUSTIVE = {"quick": "26 rankings x 108 variants x 5 namings; all 66430 strings of length <= 5; all 700 datasets as files",
               "thorough": "150 rankings (4 elements) x variants; all 597871 strings of length <= 6 (+ 7 sampled); "
                           "18275 datasets as files"}
 ASSUMPTIONS = ["equality of datasets read back is decided by TLC on the projected rankings (bag equality), not by the "
@@ -36,7 +36,7 @@ def _export(what, n, maxlen):
     return core.load_ndjson(out)
 
 
-NAMES = {"ints": lambda x: x, "big": lambda x: 100 + x, "letters": lambda x: "abcde"[x - 1],
+NAMES = {"ints": lambda x: x, "big": lambda x: 100 + x, "zero": lambda x: x - 1, "letters": lambda x: "abcde"[x - 1],
          "words": lambda x: ["ab", "ba", "abc", "x1", "y_2"][x - 1]}
 
 
@@ -53,7 +53,7 @@ def run_parse(case):
     try:
         r = core.with_alarm(2, R.from_string, text)
         rec["got"] = [sorted(rev.get((e.type, e.value), 0) for e in b) for b in r]
-        want_int = case["naming"] in ("ints", "big")
+        want_int = case["naming"] in ("ints", "big", "zero")
         rec["typeok"] = 1 if all((e.type is int) == want_int for b in r for e in b) else 0
         expected = R([{name(x) for x in b} for b in case["r"]])
         rec["eq"] = 1 if (r == expected and expected == r) else 0
@@ -93,13 +93,13 @@ def file_cases(dss):
     out = []
     for k, D in enumerate(dss):
         n = max(grids.universe(D))
-        out.append({"D": D, "naming": ["ints", "letters", "big"][k % 3], "ne": n, "reader": k % 2})
+        out.append({"D": D, "naming": ["ints", "letters", "big", "zero"][k % 4], "ne": n, "reader": k % 2})
     return out
 
 
 def models(tier):
     return [Model("TextFormat", "TextFormat_thm_small.cfg" if tier == "quick" else "TextFormat_thm.cfg",
-                  "the rendered text determines the ranking (Render is injective across variants), 4 naming kinds")]
+                  "the rendered text determines the ranking (Render is injective across variants), 5 naming kinds")]
 
 
 def stages(tier, rng, only=None):
